@@ -204,6 +204,18 @@ feature('with-attr-target',
 feature('assign-tuple-subscript-target',
         ['{B1:$X/assign}, _id([0], {R1:$Y})[0] = 0, 0', '{R2:$X}'],
         ['$X, _id([0], {R1})[0] = 0, 0; $X__s = {d1}', '{R2}'], binds='$X', c02=True, c03=True)
+feature('assign-target-reads-earlier-element',
+        ['{B1:$X/tuple-assign}, _id([0], {R1:$X})[0] = 0, 0', '{R2:$X}'],
+        ['$X, _id([0], ($X__s := {d1}), {R1})[0] = 0, 0', '{R2}'], binds='$X', c02=True, c03=True)
+feature('chained-assign-target-reads-first-target',
+        ['{B1:$X/chained-assign} = _id([0], {R1:$X})[0] = 0', '{R2:$X}'],
+        ['$X = _id([0], ($X__s := {d1}), {R1})[0] = 0', '{R2}'], binds='$X', c02=True, c03=True)
+feature('subscript-target-reads-walrus-of-value',
+        ['_id([0], {R1:$X})[0] = ({B1:$X/walrus} := 0)', '{R2:$X}'],
+        ['_id([0], {R1})[0] = _id($X := 0, $X__s := {d1})', '{R2}'], binds='$X', c02=True, c03=True)
+feature('annotation-reads-own-target',
+        ['{B1:$X/ann-assign}: _id(int, {R1:$X}) = 0', '{R2:$X}'],
+        ['$X: _id(int, ($X__s := {d1}), {R1}) = 0', '{R2}'], binds='$X', c02=True, c03=True)
 feature('augassign-subscript-target',
         ['_id([0], {R1:$X})[0] += 1', '_id(_mk(), {R2:$Y}).v: int = 0'],
         ['_id([0], {R1})[0] += 1', '_id(_mk(), {R2}).v: int = 0'], c02=True, c03=True)
